@@ -33,7 +33,11 @@ def invOK (a : Dec) (p : Nat) (r : Dec) : Bool × String :=
 
 def handle (op : String) (args : List String) (impl : String) : Verdict :=
   match op, args with
-  | "inv", [a, p, mode, guess] =>
+  | "inv", [a, p, mode, guessField] =>
+    -- the guess, optionally followed by `~<f32 bits>` of `(LN_2 * exp10(-frac)) as f32` on the back-up path
+    let (guess, v32?) := match guessField.splitOn "~" with
+      | [g, v] => (g, parseNat? v)
+      | _ => (guessField, none)
     match parseDec? a, parseNat? p, Mode.ofString? mode, parseDec? guess, parseDec? impl with
     | some a, some p, some m, some g, some r =>
       let model := a.inverseCtx F64.estCode p m g
@@ -55,7 +59,14 @@ def handle (op : String) (args : List String) (impl : String) : Verdict :=
                 (match invGuessMain b a.scale with
                  | some mg => if Spec.valueEq mg g then "" else "+guess-model-differs"
                  | none => "+guess-model-none")
-              else "+guess-backup-path"),
+              else
+                -- back-up path: the model of the bookkeeping around the float kernel (`C12_backup_guess_premise`)
+                (match v32? with
+                 | some v32 =>
+                   (match invGuessBackup b a.scale v32 with
+                    | some mg => if Spec.valueEq mg g then "+guess-backup-path" else "+guess-backup-model-differs"
+                    | none => "+guess-backup-model-none")
+                 | none => "+guess-backup-path-no-kernel")),
         trivial := false }
     | _, _, _, _, _ => badInput "inv args"
   | "oneover", [form, a, guess] =>
